@@ -28,6 +28,18 @@ MISSED_FIRST = {
     "C11-n2": "not decided by the first version: the worker hung for real (a goroutine blocked in Mutex.Lock is invisible to synctest) until the wall-clock watchdog gave exit 2; caught as a simulated deadlock after lock waits were modelled by the scheduler (DESIGN 12.2) and streams with several faulty trees were added",
     "C11-n3": "only evaluated after the second strengthening round; the first version had no empty streams and no pre-emption inside Compare's launch loop and would have missed it",
     "C18-n1": "found by the first version but reported as exit 2: the two cross-process comparisons were separate classes and the replay, having another random seed, landed in the other class; now one class, replay reproduces",
+    # third wave: "first version" = the checks as committed when the wave was launched (a3cfde8), measured by running them on every change
+    "C02-k3": "not detected by the C02 check, rightly: the change needs two goroutines indexing trees concurrently, which C02 (quantified over inputs) does not contain; it is a C11 violation (data race). The C11 check as it stood missed it too - every name had been memoised by the sequential reference run or by an earlier case - and catches it since taxon names are salted per case and the threaded run comes first in half of the cases",
+    "C04-k2": "missed: quartets were drawn over 6 taxon ids, where no two different sets collide; caught after the enumerated scan of all 4-subsets of 45 ids for colliding hash codes was added",
+    "C04-k3": "missed: the index oracle was skipped when the structural check failed; caught since it is evaluated regardless",
+    "C08-k1": "missed: trees were always indexed with ReinitIndexes; caught after the history 'indexed, edited in place, re-indexed with UpdateTipIndex / ClearBitSets / UpdateBitSet, CommonEdges' was added",
+    "C10-k2": "missed: references were never much less resolved than the bootstrap trees and had at most 10 taxa; caught after star-like references and up to 16 taxa were added (the rehash half of the change alone is a C04 violation and was caught by the C04 check from the start)",
+    "C11-k1": "missed: the reader feed was always Newick; caught after Nexus documents were added as a feed",
+    "C11-k2": "missed: --rf was not among the option combinations of c11cli; caught after it was added",
+    "C13-k1": "missed: the root was never named; caught after named roots were added",
+    "C13-k2": "missed: all trees of a list were on the same taxa; caught after heterogeneous lists were added (with the oracle 'all trees or an error')",
+    "C18-k2": "missed: states were words; caught after states that are equal as numbers but different as text were added",
+    "C18-k3": "missed: brlen setrand was only run with its default flags; caught after --internal=false / --external=false templates were added",
     "C18-n3": "only evaluated after the second strengthening round (interfering command between two runs of a template); the first version would have missed it",
 }
 for spec in sys.argv[3:]:
